@@ -160,6 +160,12 @@ impl Property for C01 {
         if info.nested_labels {
             ctx.label("nested-labels");
         }
+        if prog.isa.subrules.iter().any(|sr| sr.alts.iter().any(|a| matches!(a.op, crate::model::isa::POp::Param { ty: crate::model::isa::PType::Sub(_), .. }))) {
+            ctx.label("nested-subrule");
+        }
+        if prog.items.iter().any(|it| matches!(it, Item::Label { dots, .. } if *dots >= 2)) {
+            ctx.label("labels-depth>=3");
+        }
         let fwd = has_forward_ref(&prog);
         if fwd {
             ctx.label("forward-ref");
